@@ -1120,4 +1120,44 @@ class C12(Prop):
         return " D " in case and impl.startswith("OK")
 
 
-PROPS = {p.id: p for p in [C06(), C19(), C11(), C16(), C13(), C10(), C15(), C09(), C12()]}
+
+# ---------------------------------------------------------------------------
+# C14: layout trivia and source positions
+# ---------------------------------------------------------------------------
+class C14(Prop):
+    id = "C14"
+    gens = []
+    header = 1
+    n_quick = 700
+    n_thorough = 20000
+    design_ref = "DESIGN.md §4 C14"
+    assumptions = [
+        "proved: the location arithmetic of SourceManager (line/column decoding, per-file ranges); the model is compared with SourceManager on every offset of small multi-file sets",
+        "observed on the implementation only (metamorphic): a program and the same program with trivia inserted at token boundaries (never directly after < or >, never between a #define name and its parenthesis, inline trivia only inside directive lines, #include/#pragma lines untouched) give byte-identical output and metadata on HLSL and MSL, or the same messages; k lines in front of every file move every reported line by k with file, column, message, source excerpt and caret line unchanged",
+        "token boundaries are found by a coarse tokenizer of the harness whose pieces are unions of real tokens, so every insertion point is a real token boundary (not every real boundary is tried)",
+    ]
+
+    def kind(self, case):
+        w = case.split()
+        return w[0] + (" " + w[1] if w[0] != "L" else "")
+
+    def comparable(self, case, impl, model):
+        return case.startswith("L ") and model is not None and not model.startswith("UNMODELLED")
+
+    def oracle(self, case, impl, model=None):
+        if impl.startswith("PANIC") or impl.startswith("TIMEOUT"):
+            return "aborted: " + impl
+        if case.startswith("L "):
+            return None
+        if impl.startswith("DIFF"):
+            w = case.split()
+            if w[0] == "W":
+                return "inserting trivia at token boundaries of program %s (seed %s) changed the result: %s" % (w[1], w[2], impl[5:300])
+            return "inserting %s %s lines before program %s did not shift the diagnostic by exactly that many lines: %s" % (w[2], w[3], w[1], impl[5:300])
+        return None
+
+    def nontrivial(self, case, impl):
+        return impl.startswith("SAME") or case.startswith("L ")
+
+
+PROPS = {p.id: p for p in [C06(), C19(), C11(), C16(), C13(), C10(), C15(), C09(), C12(), C14()]}
